@@ -9,6 +9,7 @@ import (
 	"encoding/json"
 	"fmt"
 	"strings"
+	"sync"
 	"time"
 
 	"github.com/ajitpratap0/GoSQLX/pkg/gosqlx"
@@ -139,4 +140,74 @@ func innerKeyword(sql string) bool {
 		}
 	}
 	return false
+}
+
+// chainStacks: the chain contexts of Pumps.tla (a context repeated without delimiters).  A chain the parser accepts at
+// two lengths must not cost stack in proportion to its length: it is read by iteration, or it is guarded.
+func chainStacks() {
+	const d1, d2 = 2000, 16000
+	type res struct {
+		name   string
+		a, b   *job
+	}
+	var all []res
+	var wg sync.WaitGroup
+	sem := make(chan struct{}, 8)
+	for i := range chains {
+		r := res{name: chains[i].Name, a: &job{mode: "chain", pump: chains[i].Name, depth: d1}, b: &job{mode: "chain", pump: chains[i].Name, depth: d2}}
+		all = append(all, r)
+		for _, j := range []*job{r.a, r.b} {
+			wg.Add(1)
+			sem <- struct{}{}
+			go func(j *job) {
+				defer wg.Done()
+				defer func() { <-sem }()
+				runJob(j)
+			}(j)
+		}
+	}
+	wg.Wait()
+	judged := 0
+	report := map[string]any{}
+	for _, r := range all {
+		run.Eval(2)
+		cse := map[string]any{"kind": "chain", "chain": r.name, "sql_at_3": chainSQL(r.name, 3), "lengths": []int{d1, d2}}
+		for _, j := range []*job{r.a, r.b} {
+			if j.timed {
+				core.Fatalf("chain %s length %d did not finish", r.name, j.depth)
+			}
+			if j.crash != "" {
+				run.Violate(core.Violation{Sig: "stack-overflow|" + r.name, Clause: "no input overflows the stack", Case: cse, Observe: firstN(core.CrashLine(j.crash), 200)})
+			}
+		}
+		if r.a.crash != "" || r.b.crash != "" {
+			continue
+		}
+		if !r.a.res.Accepted || !r.b.res.Accepted {
+			report[r.name] = "not judged: not accepted at both lengths"
+			continue
+		}
+		judged++
+		run.Nontrivial("chain\x00" + r.name)
+		grow := int64(r.b.res.StackKB) - int64(r.a.res.StackKB)
+		report[r.name] = map[string]any{"stack_kb": []uint64{r.a.res.StackKB, r.b.res.StackKB}}
+		if grow > 1536 { // 14,000 more elements: a recursion costs megabytes, an iteration nothing
+			run.Violate(core.Violation{Sig: "stack-grows-with-chain-length|" + r.name, Clause: "stack use is bounded independently of input length",
+				Case: cse, Observe: map[string]any{"stack_kb_after_parse": []uint64{r.a.res.StackKB, r.b.res.StackKB}}, Expect: "no growth: the chain is read by iteration, or rejected beyond the nesting limit"})
+		}
+	}
+	run.Extra["chains"] = report
+	run.Extra["chains_judged"] = judged
+	if judged < 8 {
+		core.Fatalf("only %d chains are accepted at both lengths", judged)
+	}
+}
+
+func chainSQL(name string, d int) string {
+	for i := range chains {
+		if chains[i].Name == name {
+			return chains[i].Build(d)
+		}
+	}
+	return ""
 }
